@@ -7,4 +7,5 @@ CONSTANTS
   ItemCap = 2
   ReusePorts = FALSE
   StrictGap = FALSE
+  FwdStamps <- FwdNone
 INVARIANTS SameExchange HalfRTT PrevConsistent NoPanic
